@@ -132,8 +132,8 @@ def run(ck):
         cases = ck.path("cases-%s.ndjson" % mode)
         kw = {}
         if thorough:
-            n = 2500 if mode == "html" else 400   # TLC runs this many behaviours per worker
-            kw = dict(simulate=n, depth=6, seed=ck.seed)
+            n = 15000 if mode == "html" else 2500
+            kw = dict(simulate=n, depth=6, seed=ck.seed, workers=1)   # every worker would replay the same random behaviours
             consts[mode] = {"MaxLen": 5, "Sample": True, "behaviours": n}
         else:
             consts[mode] = {"MaxLen": 3, "Sample": False}
